@@ -27,6 +27,7 @@ DEFAULT_PROFILE = {
   "malformed": 4,
   "temp_ids": 2,
   "meta_raw": 0,
+  "cyclic_formula": 0,
 }
 
 
@@ -631,6 +632,18 @@ class Gen(object):
 
   def g_meta_raw(self, w):
     return None
+
+  def g_cyclic_formula(self, w):
+    """Make some formula column refer to another formula column of the same table (may close a cycle)."""
+    t = self._table(w)
+    if not t:
+      return None
+    fc = [c for c in w.formula_cols(t) if c["colId"] != "group"]
+    if len(fc) < 1:
+      return None
+    a = self.rng.choice(fc)
+    b = self.rng.choice(fc)
+    return ["ModifyColumn", t["tableId"], a["colId"], {"formula": "$%s" % b["colId"]}]
 
   def g_malformed(self, w):
     rng = self.rng
